@@ -107,6 +107,7 @@ func cmdCheck(args []string) int {
 	workers := fs.Int("j", runtime.NumCPU(), "workers")
 	only := fs.String("only", "", "run only this harness")
 	noEvidence := fs.Bool("no-evidence", false, "do not write the evidence file")
+	solver := fs.String("solver", "z3", "z3 | z3-new | cvc5 (the registered checks use z3; the others are for differential runs)")
 	fs.Parse(args)
 	if *tier == "" {
 		*tier = os.Getenv("VERIF_TIER")
@@ -202,8 +203,8 @@ func cmdCheck(args []string) int {
 		params["seed"] = seed
 		cfg := &interp.Config{
 			Prog: l.prog, HarnessPkgs: harnessPkgs(l), InitPkgs: l.initPkgs, Workers: *workers,
-			SolverArgv: solverArgv("z3"), TimeoutMs: tmo, MaxPaths: ts.MaxPaths,
-			Budget: time.Duration(ts.BudgetS) * time.Second, Params: params, SampleEvery: 97, MaxSteps: hs.MaxSteps, RunCmdInits: hs.CmdInits, KeepObs: hs.Kind == "deterministic",
+			SolverArgv: solverArgv(*solver), TimeoutMs: tmo, MaxPaths: ts.MaxPaths,
+			Budget: time.Duration(ts.BudgetS) * time.Second, Params: params, SampleEvery: 97, MaxSteps: hs.MaxSteps, RunCmdInits: hs.CmdInits, FreshInits: hs.CmdInits, KeepObs: hs.Kind == "deterministic",
 		}
 		res, err := interp.Explore(cfg, fn)
 		if err != nil {
@@ -271,7 +272,26 @@ func cmdCheck(args []string) int {
 				}
 			}
 			if len(files) > 0 {
-				nres, err := nb.run(files, hs.InCmd, false, 120*time.Second)
+				var nres map[string]*NativeResult
+				var err error
+				if hs.CmdInits {
+					// these harnesses write to the option variables and flag objects of
+					// package cmd: one process per path, as every path starts from the
+					// state of a new process
+					nres = map[string]*NativeResult{}
+					for _, f := range files {
+						one, e := nb.run([]string{f}, hs.InCmd, false, 60*time.Second)
+						if e != nil {
+							err = e
+							break
+						}
+						for k, v := range one {
+							nres[k] = v
+						}
+					}
+				} else {
+					nres, err = nb.run(files, hs.InCmd, false, 120*time.Second)
+				}
 				if err != nil {
 					problems = append(problems, fmt.Sprintf("%s: native build/run: %v", hs.Name, err))
 					inconclusive++
